@@ -7,7 +7,7 @@
 
    Symbols (concretisation in harness/explex/main.go):
      dq "   sq '   bs \   sl /   st *   lp ( rp ) lb [ rb ] lc { rc } lt < gt >   sc ;  eq =  co ,  cl :
-     d0 0   d8 8   x   e   b   a   n   u   dot .   mi -   pl +   us _   qm ?  am &  pi |  ex !  hash #
+     d0 0   d1 1   d8 8   x   X   e   E   p   b   a   n   u   dot .   mi -   pl +   us _   qm ?  am &  pi |  ex !  hash #
      lf LF  cr CR  tab TAB  sp space  nul 0x00   inv 0x80 (never valid UTF-8)
      u2 a 2-byte character (U+00E9)   u3 a 3-byte character (U+20AC)   bom U+FEFF (3 bytes)
 
@@ -79,6 +79,10 @@ Context(c) == CASE c = "msg"   -> <<"t:message", "t:M", "t:{">>
                 [] c = "msg.optgroup" -> <<"t:message", "t:M", "t:{", "t:optional", "t:group">>
                 [] c = "ext.group"    -> <<"t:extend", "t:M", "t:{", "t:group">>
                 [] c = "oneof.group"  -> <<"t:message", "t:M", "t:{", "t:oneof", "t:a", "t:{", "t:group">>
+                [] c = "hex"   -> <<"d0", "x">>                                   \* byte-level contexts for numeric literals
+                [] c = "HEX"   -> <<"d0", "X">>
+                [] c = "eq"    -> <<"a", "sp", "eq", "sp">>
+                [] c = "eqhex" -> <<"a", "sp", "eq", "sp", "d0", "x">>
                 [] c = "enum"  -> <<"t:enum", "t:M", "t:{">>
                 [] c = "svc"   -> <<"t:service", "t:M", "t:{">>
                 [] c = "opt"   -> <<"t:option", "t:a", "t:=">>
